@@ -90,8 +90,12 @@ package foreach
 //@ func (*runningStep).provideEnablingInput
 //@   requires wfstep(r) && held(r.lock) && lockinv(r)
 //@   ensures [second-hand-over-refused] old(r.enabledInputAvailable) ==> result != nil && !sentnow(r.enabledInput)
-//@   ensures [first-hand-over-recorded] !old(r.enabledInputAvailable) ==> result == nil && r.enabledInputAvailable && sentnow(r.enabledInput)
-//@   ensures [enabled-iff-absent-or-true] !old(r.enabledInputAvailable) ==> lastsent(r.enabledInput) == (input["enabled"] == nil || input["enabled"] == any(true))
+//@   ensures [first-hand-over-recorded] !old(r.enabledInputAvailable) && result == nil ==> r.enabledInputAvailable && sentnow(r.enabledInput)
+//@   ensures [a-value-that-does-not-read-as-a-boolean-is-refused] !old(r.enabledInputAvailable) ==> \
+//@        (result == nil) == (input["enabled"] == nil || readsAsBool(input["enabled"]))
+//@   ensures [refusal-hands-nothing-over] result != nil ==> !sentnow(r.enabledInput) && r.enabledInputAvailable == old(r.enabledInputAvailable)
+//@   ensures [enabled-is-what-the-field-reads-as-and-true-when-absent] !old(r.enabledInputAvailable) && result == nil ==> \
+//@        lastsent(r.enabledInput) == (input["enabled"] == nil || boolValue(input["enabled"]))
 //@   ensures [a-step-given-its-input-no-longer-reports-waiting] result == nil && r.currentStage == StageIDEnabling ==> r.currentState != step.RunningStepStateWaitingForInput
 //@   ensures [lock-invariant-kept] lockinv(r)
 //
